@@ -3,6 +3,7 @@ package srv
 import (
 	"context"
 	"errors"
+	"io"
 
 	"github.com/tychoish/fun"
 	"github.com/tychoish/fun/pubsub"
@@ -17,6 +18,8 @@ const (
 	vc11err
 	vc11panic
 	vc11blocks
+	vc11eof      // (jobs only) a failure that happens to be a sentinel of the iterator machinery
+	vc11canceled // (jobs only)
 )
 
 type vc11svc struct {
@@ -159,6 +162,10 @@ func (j *vc11job) worker(i int) fun.Worker {
 			return vc11Errs[i]
 		case vc11panic:
 			panic(vc11Errs[i])
+		case vc11eof:
+			return io.EOF
+		case vc11canceled:
+			return context.Canceled
 		}
 		return nil
 	}
@@ -231,7 +238,7 @@ func VC11_Cleanup() {
 	late := make([]bool, n)
 	s := Cleanup(q, 0)
 	for i := 0; i < n; i++ {
-		jobs[i] = &vc11job{outcome: vf.Choice("outcome", 3)}
+		jobs[i] = &vc11job{outcome: []int{vc11ok, vc11err, vc11panic, vc11eof, vc11canceled}[vf.Choice("outcome", 5)]}
 		late[i] = vf.Choice("added-after-start", 2) == 1
 		if !late[i] {
 			vf.Assert(q.Add(jobs[i].worker(i)) == nil, "queue-add-failed")
@@ -253,8 +260,57 @@ func VC11_Cleanup() {
 	vf.Reach("cleanup-service-waited")
 	for i := 0; i < n; i++ {
 		vf.Assert(jobs[i].runs == 1, "accepted-cleanup-function-not-run-exactly-once")
-		if jobs[i].outcome == vc11err || jobs[i].outcome == vc11panic {
+		switch jobs[i].outcome {
+		case vc11err, vc11panic:
 			vf.Assert(werr != nil && errors.Is(werr, vc11Errs[i]), "cleanup-failure-not-surfaced-through-wait")
+		case vc11eof:
+			vf.Assert(werr != nil && errors.Is(werr, io.EOF), "cleanup-failure-not-surfaced-through-wait")
+		case vc11canceled:
+			vf.Assert(werr != nil && errors.Is(werr, context.Canceled), "cleanup-failure-not-surfaced-through-wait")
+		}
+	}
+	vf.Quiesce()
+	vf.Assert(vf.Live() == 0, "goroutine-left-behind")
+}
+
+// Services queued when the orchestrator's context ends: they were added
+// before the cancellation, so finished ones are still awaited (their failure
+// is in Wait's result) and no service is started twice or left running.
+func VC11_OrchestratorCancelRace() {
+	ctx, cancel := context.WithCancel(context.Background())
+	defer cancel()
+	orc := &Orchestrator{}
+	n := vf.Range("services", 1, 2)
+	svcs := make([]*vc11svc, n)
+	for i := 0; i < n; i++ {
+		finished := vf.Choice("already-finished", 2) == 1
+		outcome := vc11ok
+		if vf.Choice("fails", 2) == 1 {
+			outcome = vc11err
+		}
+		svcs[i] = vc11service(i, outcome)
+		if finished {
+			svcs[i].state = 2
+			vf.Assert(svcs[i].s.Start(ctx) == nil, "member-start-failed")
+			_ = svcs[i].s.Wait()
+		}
+		vf.Assert(orc.Add(svcs[i].s) == nil, "orchestrator-add-failed")
+	}
+	cancelFirst := vf.Choice("cancel-before-start", 2) == 1
+	if cancelFirst {
+		cancel()
+	}
+	vf.Assert(orc.Start(ctx) == nil, "orchestrator-start-failed")
+	cancel()
+	werr := orc.Wait()
+	vf.Reach("cancel-race-waited")
+	for i := 0; i < n; i++ {
+		vf.Assert(svcs[i].runs <= 1, "service-started-more-than-once")
+		if svcs[i].runs == 1 {
+			vf.Assert(svcs[i].ended, "wait-returned-before-a-service-returned")
+		}
+		if svcs[i].state == 2 && svcs[i].outcome == vc11err {
+			vf.Assert(werr != nil && errors.Is(werr, vc11Errs[i]), "wait-result-lacks-the-failure-of-a-finished-service")
 		}
 	}
 	vf.Quiesce()
